@@ -17,6 +17,7 @@ func init() {
 	extraRules["C02"] = append(extraRules["C02"], more3ReaderChain)
 	extraRules["C06"] = append(extraRules["C06"], more3ReaderChain)
 	extraRules["C12"] = append(extraRules["C12"], more3ReaderChain)
+	extraRules["C20"] = append(extraRules["C20"], more3ReaderChain)
 	extraControls["C02"] = append(extraControls["C02"],
 		Control{Name: "MD5 middleware builds its reader on the raw body stream", Rule: "R-C02-8", File: "s3api/middlewares/md5.go",
 			Old: "\t\t\twrapBodyReader(ctx, func(r io.Reader) io.Reader {\n\t\t\t\tr, err = utils.NewHashReader(r, incomingSum, utils.HashTypeMd5)\n\t\t\t\treturn r\n\t\t\t})",
@@ -28,7 +29,11 @@ func init() {
 
 func more3ReaderChain(p *Program, r *Report) {
 	rule := "R-C02-8"
-	r.Rule(rule, "the reader chain is only ever extended: whenever a middleware stores a reader under the context local \"body-reader\", the inner io.Reader given to the constructor of the stored reader is read from that same local (the raw body stream only where none is installed yet); a middleware that builds its reader on the raw stream discards the deferred signature / chunk verification installed before it", 3)
+	if r.Prop == "C20" {
+		r.Rule("R-C20-12", "the reader chain has a bottom: where a middleware builds a reader on the request's own body stream (ctx.Request().BodyStream(), nil for a request without a body) that value is known non-nil on the edge it arrives by", 3)
+	} else {
+		r.Rule(rule, "the reader chain is only ever extended: whenever a middleware stores a reader under the context local \"body-reader\", the inner io.Reader given to the constructor of the stored reader is read from that same local (the raw body stream only where none is installed yet); a middleware that builds its reader on the raw stream discards the deferred signature / chunk verification installed before it", 3)
+	}
 	ioReader := func(t types.Type) bool {
 		nt, ok := types.Unalias(t).(*types.Named)
 		return ok && nt.Obj().Pkg() != nil && nt.Obj().Pkg().Path() == "io" && nt.Obj().Name() == "Reader"
@@ -104,6 +109,41 @@ func more3ReaderChain(p *Program, r *Report) {
 						}
 					}
 				}
+			}
+			// the bottom of the chain exists: the request's own body stream is nil for a request without a body
+			// (fasthttp), so where it is used as the source it must be known non-nil on the edge it arrives by
+			nilSrc := ""
+			for _, v := range args[1:] {
+				for _, rt := range Origins(v, nil) {
+					cc, isCall := rt.Call.(*ssa.Call)
+					if rt.Kind != "call" || !isCall {
+						continue
+					}
+					g := cc.Call.StaticCallee()
+					if g == nil || g.Pkg == nil || g.Pkg.Pkg.Path() != modPath+"/s3api/utils" {
+						continue
+					}
+					for i, prm := range g.Params {
+						if !ioReader(prm.Type()) || i >= len(cc.Call.Args) {
+							continue
+						}
+						for _, lf := range valueLeaves(cc.Call.Args[i], cc.Block()) {
+							isStream := false
+							for _, r2 := range Origins(lf.val, nil) {
+								if r2.Kind == "call" && strings.HasSuffix(r2.Desc, "fasthttp.Request).BodyStream") {
+									isStream = true
+								}
+							}
+							if _, isPhi := lf.val.(*ssa.Phi); isStream && !isPhi && truthOnEdge(lf.val, lf.from, lf.to) <= 0 {
+								nilSrc = p.Pos(cc.Pos())
+							}
+						}
+					}
+				}
+			}
+			if r.Prop == "C20" {
+				r.Check(nilSrc == "", "R-C20-12", fnName(f)+"/install#"+itoa(k)+":source-not-nil", p.Pos(c.Pos()), "the request's body stream is used only where it is known non-nil", "the reader installed here is built (at "+nilSrc+") on ctx.Request().BodyStream() without a nil test: a PUT without Content-Length has no body stream, the first Read dereferences nil and the process exits (fasthttp does not recover handler panics); a valid access key id suffices, the signature is never checked")
+				continue
 			}
 			r.Check(ctors > 0 && ok, rule, fnName(f)+"/install#"+itoa(k)+":wraps-current-reader", p.Pos(c.Pos()), "the new reader's source is the installed body reader", "the reader stored as body reader ("+what+") is not built on the reader already installed under \"body-reader\": whatever verification an earlier middleware deferred into that reader never runs")
 		}
@@ -732,7 +772,33 @@ func more3NarrowingProven(p *Program, r *Report) {
 		if len(convs) == 0 {
 			continue
 		}
-		a := runZone(p, f, nil)
+		// strconv's contract: ParseInt/ParseUint(s, base, bitSize) always return a value that fits bitSize bits
+		// (clamped on a range error)
+		axioms := func(v ssa.Value) (lo, hi *big.Int) {
+			ex, ok := v.(*ssa.Extract)
+			if !ok || ex.Index != 0 {
+				return nil, nil
+			}
+			c, ok := ex.Tuple.(*ssa.Call)
+			if !ok || len(c.Call.Args) != 3 {
+				return nil, nil
+			}
+			cn := calleeName(c)
+			bits, isC := constInt(c.Call.Args[2])
+			if !isC || bits <= 0 || bits > 64 {
+				return nil, nil
+			}
+			switch cn {
+			case "strconv.ParseInt":
+				h := new(big.Int).Sub(new(big.Int).Lsh(big.NewInt(1), uint(bits-1)), big.NewInt(1))
+				l := new(big.Int).Neg(new(big.Int).Lsh(big.NewInt(1), uint(bits-1)))
+				return l, h
+			case "strconv.ParseUint":
+				return big.NewInt(0), new(big.Int).Sub(new(big.Int).Lsh(big.NewInt(1), uint(bits)), big.NewInt(1))
+			}
+			return nil, nil
+		}
+		a := runZone(p, f, axioms)
 		for i, cv := range convs {
 			n++
 			tb, signed, _ := intWidth(cv.Type())
@@ -1031,6 +1097,9 @@ func init() {
 		Control{Name: "GetObjectLegalHold tests the current object for a delete marker", Rule: "R-C10-10", File: "backend/posix/posix.go",
 			Old: "func (p *Posix) GetObjectLegalHold(_ context.Context, bucket, object, versionId string) (*bool, error) {\n\terr := p.doesBucketAndObjectExist(bucket, object)\n\tif err != nil {\n\t\treturn nil, err\n\t}\n", New: "func (p *Posix) GetObjectLegalHold(_ context.Context, bucket, object, versionId string) (*bool, error) {\n\terr := p.doesBucketAndObjectExist(bucket, object)\n\tif err != nil {\n\t\treturn nil, err\n\t}\n\tif dm, _ := p.isObjDeleteMarker(bucket, object); dm {\n\t\treturn nil, s3err.GetAPIError(s3err.ErrNoSuchObjectLockConfiguration)\n\t}\n", Expect: "same-target"})
 	extraControls["C20"] = append(extraControls["C20"],
+		Control{Name: "revert fix 0dbe61a: readers stacked on a nil body stream", Rule: "R-C20-12", File: "s3api/middlewares/body-reader.go",
+			Old: "\t\tif r == nil {\n\t\t\t// a request without a body has no body stream: the readers\n\t\t\t// stacked on top need something to read the end of stream from\n\t\t\tr = bytes.NewReader(nil)\n\t\t}\n", New: "",
+			More: []Edit{{"s3api/middlewares/body-reader.go", "\t\"bytes\"\n", ""}}, Expect: "source-not-nil"},
 		Control{Name: "posix.GetObject: delete-marker result without LastModified", Rule: "R-C20-11", File: "backend/posix/posix.go",
 			Old: "\t\t\t\tDeleteMarker: getBoolPtr(true),\n\t\t\t\tLastModified: backend.GetTimePtr(fi.ModTime()),\n\t\t\t}, err\n", New: "\t\t\t\tDeleteMarker: getBoolPtr(true),\n\t\t\t}, err\n", Expect: "LastModified"})
 }
